@@ -1045,13 +1045,23 @@ def Prog.wfb : Prog ε → Bool
 
 /-! ## the instance for `Ex` -/
 
-/-- binary-operator expressions; as a statement an expression must not start like an assignment
-    target (an identifier-like token) -/
+/-- `parse_assignment` does not take the expression: it takes `chain op …` with an assignment operator `op`, so
+    the expression must not be `chain = …` at its left end (`a = b` is the assignment, not a comparison; descend
+    through the left operands: `a = b + 1` printed from `(a = b) + 1` is excluded too).  Everything else either does
+    not start with a member-access chain at all, or continues after its leading chain with something that is not
+    an assignment operator. -/
+def Ex.naB : Ex → Bool
+  | .bin l op _ => if l.isChain then !assignOps.contains op.kind else l.naB
+  | _ => true
+
+/-- the expressions of `Model/Expr.lean`: any member-access chain (identifiers, calls, indexings joined by `.`)
+    may be assigned to; any expression `parse_assignment` does not take may stand as a statement (`Stmt.WF` adds
+    that its first token is not one an earlier statement parser reacts to) -/
 def exSpec : ExprSpec Ex where
   toks := Ex.toks
   tree := Ex.tree
   wfb := fun e => e.wfb 8
-  stmtb := fun e => firstKindOK (fun k => !identKinds.contains k && k != Kind.Comment) e.toks
-  lhsb := fun e => match e with | .atom t => identKinds.contains t.kind | _ => false
+  stmtb := Ex.naB
+  lhsb := fun e => e.isChain && e.wfb 0
 
 end Gold.C06
